@@ -64,6 +64,7 @@ func genC04Stmt(r *Rng, idx int, mysql bool) c04stmt {
 	st := c04stmt{name: fmt.Sprintf("Q%d", idx)}
 	named := r.Chance(45)
 	style := r.Intn(3) // one named-parameter spelling per statement (sqlc rejects mixtures)
+	castAt := r.Chance(50)
 	np := 0
 	usedNames := []string{}
 	param := func(col string) string {
@@ -80,6 +81,13 @@ func genC04Stmt(r *Rng, idx int, mysql bool) c04stmt {
 			}
 			switch style {
 			case 0:
+				if castAt {
+					ty := "text"
+					if nm == "id" || nm == "author_id" {
+						ty = "bigint"
+					}
+					return "@" + nm + "::" + ty
+				}
 				return "@" + nm
 			case 1:
 				return "sqlc.arg(" + nm + ")"
@@ -106,6 +114,9 @@ func genC04Stmt(r *Rng, idx int, mysql bool) c04stmt {
 	if !mysql && named && r.Chance(12) {
 		kindSel = 6
 	}
+	if named && r.Chance(25) {
+		kindSel = 7
+	}
 	switch kindSel {
 	case 6:
 		// KNOWN FINDING paramOrder: numbering follows the AST walk (offset before count, CTE after the body)
@@ -118,6 +129,14 @@ func genC04Stmt(r *Rng, idx int, mysql bool) c04stmt {
 			lines = append(lines, "WITH c AS (SELECT id FROM authors WHERE name = "+param("name")+")")
 			lines = append(lines, "SELECT c.id FROM c JOIN books b ON b.author_id = c.id WHERE b.title = "+param("title"))
 		}
+	case 7:
+		// several names, re-used after other names were allocated in between
+		st.cmd = ":many"
+		st.tags = append(st.tags, "name-reuse")
+		lines = append(lines, "SELECT a.id FROM authors a")
+		lines = append(lines, "WHERE a.name = "+param("name")+" AND a.id > "+param("id")+" AND a.bio <> "+param("name"))
+		comment()
+		lines = append(lines, "  AND a.id < "+param("id")+" AND a.bio = "+param("bio")+" AND a.name <> "+param("name"))
 	case 0:
 		st.cmd = ":many"
 		tg := r.Pick([]string{"*", "a.*", "id, name", "a.*, b.title", "*, " + lit + " AS l", "count(*)", "id, *"})
@@ -134,7 +153,10 @@ func genC04Stmt(r *Rng, idx int, mysql bool) c04stmt {
 		lines = append(lines, "SELECT "+tg)
 		comment()
 		lines = append(lines, "FROM "+from)
-		if r.Chance(70) {
+		if r.Chance(30) {
+			lines = append(lines, "WHERE a.name = "+param("name")+" AND a.id > "+param("id")+" AND a.bio <> "+param("name"))
+			lines = append(lines, "  AND a.id < "+param("id")+" AND a.bio = "+param("bio"))
+		} else if r.Chance(70) {
 			lines = append(lines, "WHERE a.name = "+param("name")+" /* inline */ AND a.bio <> "+lit)
 			if r.Chance(40) {
 				lines = append(lines, "  AND a.id > "+param("id")+" -- trailing comment")
@@ -173,6 +195,7 @@ func genC04Stmt(r *Rng, idx int, mysql bool) c04stmt {
 			lines = append(lines, "SELECT b.* FROM books b WHERE b.title = "+param("title"))
 			st.tags = append(st.tags, "star")
 		} else {
+			castAt = false
 			lines = append(lines, "SELECT "+lit+"::text AS l, b.* FROM books b")
 			lines = append(lines, "WHERE b.title = "+param("title")+"::text OR b.\"order\" = 1")
 			st.tags = append(st.tags, "star")
